@@ -28,6 +28,14 @@ Definition record_eqb (a b : record) : bool :=
   | _, _ => false
   end.
 
+(** as [record_eqb], but the END code is compared only when [with_code] *)
+Definition record_eqb_upto (with_code : bool) (a b : record) : bool :=
+  match a, b with
+  | END c i m u d, END c' i' m' u' d' =>
+      (negb with_code || (c =? c')) && (i =? i') && (m =? m') && (u =? u') && (d =? d')
+  | _, _ => record_eqb a b
+  end.
+
 Fixpoint list_eqb {A} (eqb : A -> A -> bool) (a b : list A) : bool :=
   match a, b with
   | [], [] => true
@@ -43,7 +51,7 @@ Fixpoint has_hdr (c : N) (sc : script) : bool :=
   | [] => false
   | Hdr c' :: r => (c =? c') || has_hdr c r
   | Panic _ :: _ => false
-  | _ :: r => has_hdr c r
+  | _ :: r => has_hdr c r       (* Nop, Body, Flush *)
   end.
 
 Definition total_render (v : N) : option N := Some v.
@@ -89,20 +97,21 @@ Record verdict := {
 }.
 
 Definition check_case (thr : N) (rq : req) (sc : script)
-    (esc : bool) (wire_obs : N) (body_obs : list N) (recs : list record) : verdict :=
+    (esc : bool) (wire_obs : N) (body_seen : bool) (body_obs : list N) (recs : list record) : verdict :=
   let scope := no_abortb sc && codes_ok sc in
   let r := relay total_render thr rq sc in
   {| in_scope := scope;
      spec_noescape := negb scope || negb esc;
      spec_500 := negb scope || esc ||
        (if panics_before_header sc
-        then (wire_obs =? 500) && list_eqb N.eqb body_obs [err_chunk]
+        then (wire_obs =? 500) && (negb body_seen || list_eqb N.eqb body_obs [err_chunk])
         else negb (memN err_chunk body_obs) && (negb (wire_obs =? 500) || has_hdr 500 sc));
      spec_records := negb scope || esc || records_ok thr rq sc wire_obs recs;
      model_ok :=
        Bool.eqb (escaped r) esc
-       && (esc || ((wire r =? wire_obs) && list_eqb N.eqb (body r) body_obs))
-       && list_eqb record_eqb (records r) recs |}.
+       && (esc || ((wire r =? wire_obs) && (negb body_seen || list_eqb N.eqb (body r) body_obs)))
+       (* a repeated WriteHeader is outside the property: which of the codes REQ_END carries is left open *)
+       && list_eqb (record_eqb_upto (set_once sc)) (records r) recs |}.
 
 Definition spec_ok (v : verdict) : bool := spec_noescape v && spec_500 v && spec_records v.
 Definition verdict_ok (v : verdict) : bool := spec_ok v && model_ok v.
@@ -111,7 +120,9 @@ Definition verdict_ok (v : verdict) : bool := spec_ok v && model_ok v.
 Definition mk_act (tag a b : N) : act :=
   if tag =? 0 then Nop
   else if tag =? 1 then Hdr a
-  else if tag =? 2 then Body (if a =? 0 then ViaWrite else if a =? 1 then ViaCopyString else ViaCopyFile) b
+  else if tag =? 2 then Body (if a =? 0 then ViaWrite else if a =? 1 then ViaCopyString
+                              else if a =? 2 then ViaCopyFile else ViaHelper) b
+  else if tag =? 4 then Flush (negb (a =? 0))
   else Panic (if a =? 0 then AbortHandler else PV a).
 Definition mk_rec (tag code ip m u id pv : N) : record :=
   if tag =? 1 then BEG ip m u id
